@@ -430,4 +430,5 @@ func probeFacts(sb *strings.Builder) {
 	framingProbeFacts(sb)
 	exportedMethodsFacts(sb)
 	setterFacts(sb)
+	queuedFacts(sb)
 }
